@@ -312,6 +312,18 @@ fn run(text: &str, acc: &Accepted, which: Which, tier: Tier) {
     }
 }
 
+// F-ORDER-VALUE seen from a stuck state: the reference reports an unavailable definition from that
+// state and every definition of that name in the state is a syntactic value.
+pub fn is_order_value_stuck(last: &M) -> bool {
+    if let Outcome::Stuck(Stuck::Unavailable(name)) = interp::run(last, sem::INTERP_FUEL) {
+        let mut defs = vec![];
+        sem::definitions_named(last, &name, &mut defs);
+        !defs.is_empty() && defs.iter().all(|d| sem::is_syntactic_value(d))
+    } else {
+        false
+    }
+}
+
 fn classify_stuck(text: &str, acc: &Accepted, last: &M, reason: &Stuck) {
     match reason {
         Stuck::Hole => {
@@ -624,6 +636,21 @@ fn nested_sweep(which: Which, tier: Tier) -> Sweep {
     .with_post_abort(abort_verdict)
 }
 
+fn type_pair_sweep(which: Which, tier: Tier) -> Sweep {
+    let fam = Rc::new(sem::type_pair_family(tier.pick(60, 140), tier));
+    let f2 = fam.clone();
+    Sweep::new(
+        "type-pair family (two types meeting at an argument, at the branches of a conditional, at an annotated definition)",
+        fam.len() as u64,
+        move |idx| {
+            count!("type_pair_programs");
+            examine(&fam[idx as usize], which, tier)
+        },
+        move |idx| f2[idx as usize].clone(),
+    )
+    .with_post_abort(abort_verdict)
+}
+
 fn order_sweep(which: Which, tier: Tier, k: usize) -> Sweep {
     let fam = Rc::new(c13::Family::new(k));
     let f2 = fam.clone();
@@ -837,6 +864,7 @@ pub fn sweeps_for(which: Which, tier: Tier) -> Vec<Sweep> {
             v.push(typed_sweep(which, tier, true, true));
             v.push(small_sweep(which, tier));
             v.push(alias_sweep(which, tier));
+            v.push(type_pair_sweep(which, tier));
         }
         Which::C04 => {
             v.push(nested_sweep(which, tier));
